@@ -64,7 +64,10 @@ def callbacks(g, log):
             r._metadata.position_info = ('own', 1)
             return r
         return n
-    return [ident, k1_to_k2, k2_to_scalar, k1_to_list, wrap_k0, fresh_copy, own_meta]
+    def k0_to_none(n):
+        rec('none', n)
+        return None if isinstance(n, g.K0) else n
+    return [ident, k1_to_k2, k2_to_scalar, k1_to_list, wrap_k0, fresh_copy, own_meta, k0_to_none]
 
 
 def ref_transform(g, x, cbs):
@@ -181,7 +184,7 @@ def run(tier, seed):
     chk = Check('C16', tier, seed)
     chk.rule = ('hand-built object DAGs with <=4 (thorough <=5) nodes (every object carries distinct metadata) and all parsed trees of '
                 'a term language (sentences <=5/6 symbols, real position metadata) x all callback sequences of length 1..2 over a '
-                'menu of 7 callbacks (identity, K1->K2 without metadata, K2->scalar, K1->list, wrap, fresh equal copy, replacement '
+                'menu of 8 callbacks (identity, K0->None, K1->K2 without metadata, K2->scalar, K1->list, wrap, fresh equal copy, replacement '
                 'with own metadata); compared with a bottom-up reference: result incl. metadata of every node, call log '
                 '(argument snapshots in order), input unchanged; non-trivial = the transformation changes the tree')
     chk.assumptions = ['reference bottom-up rewrite in vf/props/c16.py; callbacks never mutate their argument and never raise']
